@@ -363,7 +363,9 @@ def standin_roundtrip(tier, seed):
     layouts = [cirq.ResultDict(params=cirq.ParamResolver({}), measurements={"m": cols.T}),
                cirq.ResultDict(params=cirq.ParamResolver({"a": 1}), records={"m": np.asfortranarray(np.arange(24).reshape(4, 2, 3) % 2).astype(np.uint8)}),
                cirq.ResultDict(params=cirq.ParamResolver({}), measurements={"m": pd.DataFrame({"x": [0, 1, 1, 0], "y": [1, 1, 0, 1], "z": [0, 0, 0, 1]}).to_numpy(dtype=np.uint8)}),
-               cirq.ResultDict(params=cirq.ParamResolver({}), measurements={"m": np.arange(40).reshape(5, 8)[:, ::2] % 2})]
+               cirq.ResultDict(params=cirq.ParamResolver({}), measurements={"m": np.arange(40).reshape(5, 8)[:, ::2] % 2}),
+               # round 11 (C11_m): signed records with a -1 entry and nothing above 1 are not bits and must come back as written
+               cirq.ResultDict(params=cirq.ParamResolver({}), records={"m": np.array([[[0, 1]], [[-1, 1]], [[1, 0]]], dtype=np.int8)})]
     for v in layouts:
         cases += 1
         _laws(v, "ResultDict with a non-contiguous array", fails, dict(family="results whose arrays are not row-major in memory", value=repr(v)[:400]), imp)
